@@ -27,3 +27,126 @@ Proof. exact (schedule_independent progs sched t e r). Qed.
 Print Assumptions c19_pool_exclusive.
 Print Assumptions c19_init.
 Print Assumptions c19_results_schedule_independent.
+
+(* ---- the shared CACHES and REGISTRIES: restated from Abstract/MemoSchedules.v (statements printed by Coq, see tools/genmod.py) ---- *)
+
+From SbModel Require Abstract.MemoSchedules.
+Module Caches.
+Import MemoSchedules.
+
+(* the memo tables (type name by type, deprecation verdict by (type, field): Load, compute, Store - in Go with a deferred Store, so the result is returned BEFORE it is stored; also the LoadOrStore form): every entry is (k, f k), every value a thread holds is f of its key; preserved by every atomic step of every thread *)
+Theorem c19_memo_inv :
+  forall (f : key -> val) (s : sys) (t : tid), Inv f s -> Inv f (step f s t).
+Proof. exact step_inv. Qed.
+
+(* under EVERY schedule every lookup obtains f key - what it obtains alone - although several threads may miss and store the same key *)
+Theorem c19_memo_schedule_independent :
+  forall (f : key -> val) (progs : tid -> list op) (sched : schedule) (t : tid) (k : key) (v : val),
+         List.In (t, k, v) (results (run f (init progs) sched)) -> v = f k.
+Proof. exact memo_schedule_independent. Qed.
+
+(* C19 literally, for the caches: a thread's whole log equals the log of the same program run alone *)
+Theorem c19_memo_same_as_alone :
+  forall (f : key -> val) (progs : tid -> list op) (sched : schedule) (t : tid),
+         th (run f (init progs) sched) t = Finished ->
+         log_of t (results (run f (init progs) sched)) =
+         log_of t (results (run f (init progs) (alone_schedule (progs t) t))).
+Proof. exact memo_same_as_alone. Qed.
+
+Theorem c19_memo_table_grows :
+  forall (f : key -> val) (progs : tid -> list op) (sched1 : schedule) (sched2 : list tid)
+           (k : key) (v : val),
+         tbl (run f (init progs) sched1) k = Some v ->
+         tbl (run f (init progs) (sched1 ++ sched2)%list) k = Some v.
+Proof. exact memo_table_grows. Qed.
+
+(* the recursive form (TypeName of a pointer type looks its element type up between its own Load and its deferred Store) *)
+Theorem c19_nested_memo_schedule_independent :
+  forall (sub : key -> option key) (g : key -> option val -> val) (f : key -> val),
+         (forall k : key, f k = g k (option_map f (sub k))) ->
+         forall (progs : tid -> list key) (sched : schedule) (t : tid) (k : key) (v : val),
+         List.In (t, k, v) (nresults (nrun sub g (ninit progs) sched)) -> v = f k.
+Proof. exact nested_memo_schedule_independent. Qed.
+
+(* the registries (name -> type and type -> name, two LoadOrStores per Register): an entry once seen is seen forever *)
+Theorem c19_registry_entries_never_change :
+  forall (nm : ty -> name) (s : rsys) (sched : schedule) (q : query) (x : nat),
+         answer s q = Some x -> answer (rrun nm s sched) q = Some x.
+Proof. exact registry_entries_never_change. Qed.
+
+Theorem c19_registry_monotone :
+  forall (nm : ty -> name) (progs : tid -> list rop) (sched1 : schedule) (sched2 : list tid)
+           (r : tid) (q : query) (x : nat),
+         List.In (r, q, Some x) (robs (rrun nm (rinit progs) sched1)) ->
+         exists later : list (tid * query * option nat),
+           robs (rrun nm (rinit progs) (sched1 ++ sched2)%list) =
+           (later ++ robs (rrun nm (rinit progs) sched1))%list /\
+           (forall (r' : tid) (a : option nat), List.In (r', q, a) later -> a = Some x).
+Proof. exact registry_monotone. Qed.
+
+(* a Register that completed before a reader starts is seen in both directions (names do not collide) *)
+Theorem c19_registry_consistent_pairs :
+  forall (nm : ty -> name) (progs : tid -> list rop) (sched1 : schedule) (sched2 : list tid)
+           (w : tid) (x : ty),
+         (forall x' : ty, nm x' = nm x -> x' = x) ->
+         List.In (Reg x) (progs w) ->
+         rth (rrun nm (rinit progs) sched1) w = RFinished ->
+         exists later : list (tid * query * option nat),
+           robs (rrun nm (rinit progs) (sched1 ++ sched2)%list) =
+           (later ++ robs (rrun nm (rinit progs) sched1))%list /\
+           (forall (r : tid) (a : option nat), List.In (r, QT x, a) later -> a = Some (nm x)) /\
+           (forall (r : tid) (a : option nat), List.In (r, QN (nm x), a) later -> a = Some x).
+Proof. exact registry_consistent_pairs. Qed.
+
+(* a pipeline whose types were all registered before it started obtains, under every schedule of other threads registering other types, exactly the answers it obtains alone *)
+Theorem c19_registered_before_start_independent :
+  forall (nm : ty -> name) (s0 : rsys) (r : tid) (qs : list query),
+         rth s0 r = RIdle (List.map Look qs) ->
+         (forall q : query, List.In q qs -> stable nm s0 q) ->
+         forall sched : schedule,
+         rth (rrun nm s0 sched) r = RFinished ->
+         rlog_of r (robs (rrun nm s0 sched)) = rlog_of r (robs (rrun nm s0 (ralone_schedule r qs))).
+Proof. exact registered_before_start_independent. Qed.
+
+(* the edges: Register is not atomic for a concurrent reader of the SAME type (one direction visible before the other) ... *)
+Theorem c19_registry_window_edge :
+  exists (progs : tid -> list rop) (sched : schedule) (r : tid) (x : ty),
+           rth (rrun ex_nm (rinit progs) sched) 0 = RHalf x nil /\
+           robs (rrun ex_nm (rinit progs) sched) = ((r, QT x, None) :: (r, QN (ex_nm x), Some x) :: nil)%list.
+Proof. exact registry_window_refuted. Qed.
+
+(* ... and two types with the same name make the owner of the name depend on the schedule: both are outside 'independent data' *)
+Theorem c19_registry_name_collision_edge :
+  exists
+           (nm : ty -> name) (progs : tid -> list rop) (sched1 : schedule) (sched2 : list tid)
+         (w : tid) (x : ty) (r : tid) (a : option nat),
+           List.In (Reg x) (progs w) /\
+           rth (rrun nm (rinit progs) sched1) w = RFinished /\
+           robs (rrun nm (rinit progs) (sched1 ++ sched2)%list) =
+           (((r, QN (nm x), a) :: nil) ++ robs (rrun nm (rinit progs) sched1))%list /\
+           a <> Some x.
+Proof. exact registry_consistent_pairs_refuted. Qed.
+
+(* non-vacuity: two threads both miss and both store *)
+Theorem c19_memo_example :
+  let s := run ex_f (init ex_progs) (0 :: 1 :: 2 :: 0 :: 1 :: nil)%list in
+         (th s 0, th s 1, tbl s 3, results s) =
+         (DeferStore 3 10 ((Plain, 4) :: nil), Returning 3 10 ((LOS, 4) :: nil), Some 10,
+          ((0, 3, 10) :: nil)%list) /\
+         (let s' := step ex_f s 0 in (th s' 0, tbl s' 3) = (Idle ((Plain, 4) :: nil), Some 10)).
+Proof. exact ex_both_store. Qed.
+
+End Caches.
+
+Print Assumptions Caches.c19_memo_inv.
+Print Assumptions Caches.c19_memo_schedule_independent.
+Print Assumptions Caches.c19_memo_same_as_alone.
+Print Assumptions Caches.c19_memo_table_grows.
+Print Assumptions Caches.c19_nested_memo_schedule_independent.
+Print Assumptions Caches.c19_registry_entries_never_change.
+Print Assumptions Caches.c19_registry_monotone.
+Print Assumptions Caches.c19_registry_consistent_pairs.
+Print Assumptions Caches.c19_registered_before_start_independent.
+Print Assumptions Caches.c19_registry_window_edge.
+Print Assumptions Caches.c19_registry_name_collision_edge.
+Print Assumptions Caches.c19_memo_example.
